@@ -33,12 +33,21 @@ func c14Same(a, b c14Snap) bool {
 // right parent, and a value returned earlier is unaffected by later registrations.
 func HC14Extend() {
 	s := l1Setup()
-	iv := vChoice("input", 2)
-	in := [][]byte{[]byte("x"), {}}[iv]
-	lim := []uint32{3072, 0}[iv]
+	iv := vChoice("input", 4)
+	in := [][]byte{[]byte("x"), {}, []byte("xy"), []byte("xyz")}[iv]
+	lim := []uint32{3072, 0, 0, 2}[iv]
 	oldLimit := readLimit
 	SetLimit(lim)
 	s.raw, s.limit = in, lim
+	if lim > 0 && len(in) > int(lim) {
+		s.raw = in[:lim]
+	}
+	// a Lookup before the registrations (whatever index or cache it builds must not hide later registrations)
+	lookupFirst := iv == 0 && vChoice("lookupFirst", 2) == 1
+	if lookupFirst {
+		vAssert(Lookup("text/plain") == text, "lookup-before-extend")
+		vAssert(Lookup("application/x-verif-alias0") == nil, "lookup-unknown-before-extend")
+	}
 	r0 := Detect(in)
 	snap0 := c14Snapshot(r0)
 	want0 := s.oracleWalk()
@@ -63,6 +72,8 @@ func HC14Extend() {
 	} else {
 		scIndex = vChoice("scenario", len(scens))
 		sc = scens[scIndex]
+		// the two extra inputs (unlimited non-empty header, header cut by the limit) run the one-Extend scenarios
+		vAssume(iv < 2 || sc.second == 0)
 	}
 	nExt := 1
 	if sc.second != 0 {
@@ -95,17 +106,35 @@ func HC14Extend() {
 				name = "application/x-verif-ext0"
 			}
 		}
+		extn := ".vx" + l1Itoa(e)
+		if iv == 0 && !lookupFirst && vChoice("sameExtension", 2) == 1 {
+			// re-registration: the new format also re-uses the extension of the format whose name it re-uses
+			// (a built-in child, or the extension registered just before); it is still a new node in front
+			switch {
+			case name == "text/csv":
+				extn = ".csv"
+			case e == 1 && name == "application/x-verif-ext0":
+				extn = ".vx0"
+			case at == text && e == 0 && len(aliases) == 1:
+				name, extn = "application/json", ".json"
+			default:
+				vAssume(false)
+			}
+		}
 		if usePkgLevel {
-			Extend(det, name, ".vx"+l1Itoa(e), aliases...)
+			Extend(det, name, extn, aliases...)
 		} else {
-			at.Extend(det, name, ".vx"+l1Itoa(e), aliases...)
+			at.Extend(det, name, extn, aliases...)
 		}
 		ext := at.children[0]
 		s.bind(i, ext)
 		exts = append(exts, ext)
 		ats = append(ats, at)
 		vAssert(ext.parent == at, "extension-parent")
-		vAssert(ext.mime == name, "extension-name")
+		vAssert(ext.mime == name && ext.extension == extn, "extension-name")
+		for _, o := range old {
+			vAssert(o != ext, "extension-is-a-new-node")
+		}
 		vAssert(len(at.children) == len(old)+1, "one-child-added")
 		for k := range old {
 			vAssert(at.children[k+1] == old[k], "older-siblings-keep-order-behind-extension")
@@ -117,7 +146,7 @@ func HC14Extend() {
 			la := Lookup(a)
 			vAssert(la == l1DFSFind(root, a), "lookup-alias-is-first-in-walk-order")
 		}
-		if name != "text/csv" || at == root {
+		if (name != "text/csv" && name != "application/json") || at == root {
 			// a fresh name (or a root-level re-use, which precedes every built-in) resolves to the extension itself
 			if name != "application/x-verif-ext0" || e == 0 || at == root || at == exts[0] || ats[0] != root {
 				vAssert(l == ext || l1DFSFind(root, name) != ext, "lookup-name")
@@ -184,5 +213,56 @@ func HC14Extend() {
 	// the value returned before the registrations is untouched
 	vAssert(c14Same(c14Snapshot(r0), snap0), "earlier-result-unaffected")
 	vAssert(s.argsOK, "detectors-get-match-arguments")
+	vReach("end")
+}
+
+// HC14OnResult: Extend called on a value returned by an earlier detection (a clone, not a tree node).
+// Whatever that does, later results keep the shape C02 demands (bare ancestors that equal the
+// registered chain), the earlier value keeps its chain, and inputs the new detector rejects are
+// classified as before.
+func HC14OnResult() {
+	s := l1Setup()
+	in := []byte("x")
+	old := readLimit
+	SetLimit(3072)
+	s.raw, s.limit = in, 3072
+	r0 := Detect(in)
+	snap0 := c14Snapshot(r0)
+	orig := len(s.nodes)
+	before := make([]int, orig)
+	for k, n := range s.nodes {
+		before[k] = len(n.children)
+	}
+	i, det := s.newExtDetector()
+	r0.Extend(det, "text/x-verif-onresult", ".vr", "text/x-verif-onresult-alias")
+	var ext *MIME
+	if len(r0.children) > 0 {
+		ext = r0.children[0]
+	}
+	for k := 0; k < orig; k++ {
+		if n := s.nodes[k]; len(n.children) != before[k] {
+			ext = n.children[0]
+		}
+	}
+	if ext != nil {
+		s.bind(i, ext)
+	}
+	s.onceOK = true
+	r1 := Detect(in)
+	SetLimit(old)
+	want1 := s.oracleWalk()
+	l1CheckChain(r1, want1, "onresult")
+	for p := r1.parent; p != nil; p = p.parent {
+		for k := 0; k < len(p.mime); k++ {
+			vAssert(p.mime[k] != ';', "onresult:ancestors-carry-no-parameters")
+		}
+		if p.parent == nil {
+			vAssert(p.mime == "application/octet-stream", "onresult:chain-ends-at-octet-stream")
+		}
+	}
+	vAssert(c14Same(c14Snapshot(r0), snap0), "onresult:earlier-result-unaffected")
+	if ext == nil || !s.verdictOf(ext) {
+		vAssert(c14Same(c14Snapshot(r1), snap0), "onresult:rejected-implies-unchanged")
+	}
 	vReach("end")
 }
